@@ -443,6 +443,24 @@ func partAuth(c *check.Ctx, a *acc) {
 		probeAuth(c, t, "smoke", carrierCase{Name: "rotation/old-token", Query: old}, st)
 		set("first-secret-0123456789")
 		same("first-secret-issued-again")
+		// a short-lived token: admitted while valid, rejected once its expiry lies
+		// three seconds in the past (whatever the server remembers about it)
+		{
+			exp := time.Now().Add(4 * time.Second)
+			shortTok := signJWT("HS256", "first-secret-0123456789", map[string]any{"alg": "HS256", "typ": "JWT"}, map[string]any{"iss": "HDS", "app_key": "x", "exp": exp.Unix()})
+			for _, ep := range []string{"ws", "smoke"} {
+				probeAuth(c, t, ep, carrierCase{Name: "short-lived/while-valid", Header: shortTok}, st)
+				probeAuth(c, t, ep, carrierCase{Name: "short-lived/while-valid", Query: shortTok}, st)
+			}
+			if d := time.Until(exp.Add(3 * time.Second)); d > 0 {
+				time.Sleep(d)
+			}
+			for _, ep := range []string{"ws", "smoke"} {
+				probeAuth(c, t, ep, carrierCase{Name: "short-lived/expired-3s-ago", Header: shortTok}, st)
+				probeAuth(c, t, ep, carrierCase{Name: "short-lived/expired-3s-ago", Query: shortTok}, st)
+				probeAuth(c, t, ep, carrierCase{Name: "short-lived/expired-3s-ago", Cookie: shortTok}, st)
+			}
+		}
 		set("")
 		same("secret-cleared-again")
 		// rotation storm: the secret flips A -> none -> B -> none ... as fast as the
@@ -589,7 +607,7 @@ func partAuth(c *check.Ctx, a *acc) {
 	c.Coverage["auth_admitted"] = st.admitted
 	c.Coverage["auth_rejected"] = st.rejected
 	c.Coverage["token_variants"] = st.singleMutation
-	c.Assumptions = append(c.Assumptions, "expiry / not-before cases are an hour away from the boundary; the boundary itself depends on the wall clock and is not examined")
+	c.Assumptions = append(c.Assumptions, "expiry / not-before cases are an hour away from the boundary, plus one token presented while valid and again three seconds after its expiry; the boundary itself depends on the wall clock and is not examined")
 	cat := tokenCatalogue("sample-secret")
 	samples := []any{}
 	for _, i := range []int{0, 6, 14, 24} {
